@@ -174,3 +174,16 @@ def _install_repo_knowledge(A: Analysis):
         return t
 
     rs.attr_type = attr_type  # type: ignore[method-assign]
+
+    # get_fields(x) returns a _TaskFieldsList (a dict subclass whose __iter__ yields the
+    # Field objects): iterating it / .values() gives Field instances
+    field_cls = repo.classes.get("pydra.compose.base.field.Field")
+    orig_return_type = rs.return_type
+
+    def return_type(f):
+        if f.qualname == "pydra.utils.general.get_fields" and field_cls is not None:
+            ft = T(inst=frozenset({field_cls}))
+            return T(elem=ft, ext=frozenset({"dict"}))
+        return orig_return_type(f)
+
+    rs.return_type = return_type  # type: ignore[method-assign]
